@@ -4,6 +4,7 @@
 package core
 
 import (
+	"runtime"
 	"fmt"
 	"go/ast"
 	"go/token"
@@ -45,6 +46,14 @@ func Load(repo string, extraEnv ...string) (*Prog, error) {
 	env = append(env, extraEnv...)
 	var overlay map[string][]byte
 	var normalized []string
+	// per-program caches keyed by SSA objects would keep every earlier program alive
+	// (the thorough tier loads one program per configuration and self-test patch)
+	deadCache = map[*ssa.Function]map[*ssa.BasicBlock]bool{}
+	initStoreCache = map[*ssa.Global]ssa.Value{}
+	initStoreDone = map[*ssa.Global]bool{}
+	globalOfTerm = map[string]*ssa.Global{}
+	absInfo = map[*ssa.Function]*absFnInfo{}
+	runtime.GC()
 	DetectRenames(repo)
 	if os.Getenv("VSA_NO_NORMALIZE") == "" {
 		ov, done, err := Normalize(repo, env)
